@@ -173,4 +173,8 @@ end
 theorem fixed_checked : ∀ p, checked Variant.fixed p = true := by
   intro p; cases p <;> rfl
 
+/-- /repo as it is (fixes/C13-sparse-tail-result.patch is part of the source). -/
+theorem current_checked : ∀ p, checked Variant.current p = true := by
+  intro p; cases p <;> rfl
+
 end Sqfs.FailStop.BP
